@@ -149,19 +149,19 @@ Lemma w_repo_facts :
 Proof. split; [vm_compute; reflexivity|]. split; [vm_compute; reflexivity|]. intro H. vm_compute in H. discriminate. Qed.
 
 Lemma w_full_ok_facts :
-  (wf_eprog w_inline = true /\ full_ok w_inline = true)
-  /\ (wf_eprog w_imulti = true /\ full_ok w_imulti = true)
-  /\ (wf_eprog w_ctx = true /\ full_ok w_ctx = true)
-  /\ (wf_eprog w_good = true /\ full_ok w_good = true)
+  (wf_eprog_full w_inline = true /\ full_ok w_inline = true)
+  /\ (wf_eprog_full w_imulti = true /\ full_ok w_imulti = true)
+  /\ (wf_eprog_full w_ctx = true /\ full_ok w_ctx = true)
+  /\ (wf_eprog_full w_good = true /\ full_ok w_good = true)
   /\ interp_fea w_inline w_sel [2; 4; 4; 2] = [(4, vzero); (4, vzero); (1, vzero); (2, vzero)].
 Proof. repeat split; vm_compute; reflexivity. Qed.
 
 Lemma compile_repo_preserves : forall e sel s,
-  wf_eprog e = true -> full_ok e = true -> apply_ot (compile_repo e) sel s = interp_fea e sel s.
+  wf_eprog_full e = true -> full_ok e = true -> apply_ot (compile_repo e) sel s = interp_fea e sel s.
 Proof. exact (compile_preserves_inline_sm false). Qed.
 
 Lemma compile_prog_repo_preserves : forall incl gm (p : prog) (e : eprog) sel s,
-  elab incl gm p = Some e -> wf_eprog e = true -> full_ok e = true ->
+  elab incl gm p = Some e -> wf_eprog_full e = true -> full_ok e = true ->
   compile_prog incl gm p = Some (compile_repo e)
   /\ interp_prog incl gm p sel s = Some (apply_ot (compile_repo e) sel s).
 Proof.
